@@ -64,7 +64,8 @@ StepCall(e) ==
                  THEN {Alarm("Conformance", e, "outcome on the listener differs from the specification's program")} ELSE {}
          C3 == IF known /\ ~direct /\ o.res = "panic" /\ ~(e.res = "reject" /\ e.code \in {"Internal", "transport", "500"})
                  THEN {Alarm("Conformance", e, "a panic of the handler is not what the caller saw")} ELSE {}
-         C4 == IF known /\ direct /\ \E p \in Range(e.probes) : (p.res = "blocked") # (ProbeFrom(e.ns, o.L, ProbeCall(p)).res = "stuck")
+         \* (when the call left no lock and no probe blocked there is nothing to compare)
+         C4 == IF known /\ direct /\ (HeldLocks(o.L) # {} \/ BlockedProbes(e) # {}) /\ \E p \in Range(e.probes) : (p.res = "blocked") # (ProbeFrom(e.ns, o.L, ProbeCall(p)).res = "stuck")
                  THEN {Alarm("Conformance", e, "probe outcome differs from the specification's lock state")} ELSE {}
          C5 == IF known /\ direct /\ e.res = "blocked" /\ o.res = "stuck" /\ e.onKind \notin {"mutex", "rwmutex"}
                  THEN {Alarm("Conformance", e, "blocked, but not on a lock")} ELSE {}
